@@ -30,6 +30,8 @@ func main() {
 		runAlias(os.Args[2])
 	case "dump":
 		runDump(os.Args[2])
+	case "conc":
+		runConc(os.Args[2:])
 	default:
 		fmt.Fprintln(os.Stderr, "unknown engine")
 		os.Exit(2)
